@@ -8,6 +8,10 @@ ROOT = os.path.dirname(os.path.dirname(os.path.abspath(__file__)))
 
 # id -> (engine, category, technique, text, note, design_ref)
 CHECKS = {
+    "C11": dict(engine="statex", category="model_checking", design_ref="DESIGN.md section 7 C11",
+        technique="exhaustive enumeration of Assemble/Flush histories over several connections, directions, RST, age-flush cut-offs and page limits on both real assemblers (one binary each), with a lifecycle/buffering monitor reading private state through injected accessors",
+        text="For tcpassembly and reassembly separately: every history of the stated length over three alphabets (one direction of a 4-byte stream with every segment, FIN, RST and four age-flush cut-offs; two connections x two directions of 2-byte streams with FlushAll in the middle; multi-page packets of 2-3 pages) followed by FlushAll, for every page-limit setting (and, for reassembly, stream behaviours KeepFrom on/off x accepts/declines removal). Monitor after every step: completion at most once, no data after it; page limits exceeded by at most the packet in hand; an age flush leaves no (half) connection waiting on data older than the cut-off and forces out nothing newer; after FlushAll: exactly one completion per stream, no connection left whose stream accepted removal, zero pages in use.",
+        note="Trusted: the injected read-only accessors (pages used, connections, queued/saved pages, first-page timestamps). Oracle restricted to the clauses of the statement (DESIGN.md Corrections)."),
     "C09": dict(engine="statex", category="model_checking", design_ref="DESIGN.md section 7 C09",
         technique="exhaustive enumeration of segment/flush histories on the real reassembly.Assembler against a sender-stream reference model, for ISNs incl. wrap-around x page-limit x KeepFrom configurations",
         text="Every history of 5 events over {SYN, SYN+data, every data segment D[a,b) of a 4-byte stream with/without FIN, bare FIN, age flush} followed by FlushAll is executed on the real assembler for 5 [thorough 8] initial sequence numbers (half-space boundary, the 2^32 wrap inside the stream) x 3 [5] page-limit settings x 2 [4] KeepFrom behaviours of the stream; every ReassembledSG hand-over is compared with the sender model: exact new bytes at pos+skip, skips only over bytes that never arrived and only in a flush step or under a page limit, kept bytes presented again unchanged in front of the new data, nothing held back behind no gap, everything accounted for after FlushAll.",
